@@ -181,16 +181,16 @@ def cells_C():
             for dt in (None, "float64", "int32"):
                 for sh in (None, (3,), 2):
                     yield ("C", fn, src, dt, sh)
-    for args in ((5,), (1, 5), (0, 1, 0.25), (5, 0, -2), (0,), (2.5,)):
+    for args in ((5,), (1, 5), (0, 1, 0.25), (5, 0, -2), (0,), (2.5,), ("t5",), ("t1", 5), (0, "t5", 2)):
         for dt in (None, "float32", "int64"):
             yield ("C", "arange", args, dt)
     for fn in ("linspace", "logspace", "geomspace"):
-        for (a, b) in ((1.0, 4.0), (1, 8), ("arr", "arr")):
+        for (a, b) in ((1.0, 4.0), (1, 8), ("arr", "arr"), ("tarr", "tarr"), ("t0d", 4.0), (1.0, "tarr")):
             for num in (0, 1, 5):
                 for endpoint in (True, False):
                     for dt in (None, "float32"):
                         for axis in (0, -1):
-                            if axis == -1 and a != "arr":
+                            if axis == -1 and not (isinstance(a, str) or isinstance(b, str)):
                                 continue
                             yield ("C", fn, a, b, num, endpoint, dt, axis)
     for N in (0, 1, 3):
@@ -376,13 +376,17 @@ def check_C(cell):
         kw = dict(dtkw(dt), **({"shape": sh} if sh is not None else {}))
         kw_np = kw
     elif fn == "arange":
-        args_mg = args_np = cell[2]
+        targ = {"t5": 5, "t1": 1}
+        args_mg = tuple(mg.tensor(targ[a]) if isinstance(a, str) else a for a in cell[2])
+        args_np = tuple(targ[a] if isinstance(a, str) else a for a in cell[2])
         kw = kw_np = dtkw(cell[3])
     elif fn in ("linspace", "logspace", "geomspace"):
         a, b, num, endpoint, dt, axis = cell[2:8]
-        if a == "arr":
-            a, b = np.array([1.0, 2.0]), np.array([4.0, 16.0])
-        args_mg = args_np = (a, b)
+        # endpoints given as arrays / as tensors (array-likes): the NumPy call gets the tensors' arrays
+        conv_ep = {"arr": lambda k: np.array([[1.0, 2.0], [4.0, 16.0]][k]), "tarr": lambda k: mg.tensor([[1.0, 2.0], [4.0, 16.0]][k]), "t0d": lambda k: mg.tensor(1.0)}
+        a = conv_ep[a](0) if isinstance(a, str) else a
+        b = conv_ep[b](1) if isinstance(b, str) else b
+        args_mg, args_np = (a, b), (conv(a), conv(b))
         kw = kw_np = dict(dtkw(dt), num=num, endpoint=endpoint, axis=axis)
     elif fn == "eye":
         N, Mm, k, dt = cell[2:6]
